@@ -4,7 +4,7 @@ request and record where its parse started."""
 from gunicorn.http.parser import RequestParser
 from gunicorn.http.message import Request
 
-from drivers.http_parse import Source, FakeSock, make_cfg
+from drivers.http_parse import Source, FakeSock, TlsSock, make_cfg
 
 
 def make_body(rng, blen, nlstyle):
@@ -57,7 +57,7 @@ FOLLOWER = b"GET /next HTTP/1.1\r\nHost: h\r\n\r\n"
 
 def run_program(stream, cuts, program, body, source="iter"):
     """program: list of (op, n) with n = None / int.  -> (events, info)"""
-    src = Source(stream, cuts) if source == "iter" else FakeSock(stream, cuts)
+    src = Source(stream, cuts) if source == "iter" else TlsSock(stream, cuts) if source == "tls" else FakeSock(stream, cuts)
     parser = RequestParser(make_cfg(), src, ("127.0.0.1", 1))
     starts = []
     un = parser.unreader
